@@ -123,14 +123,14 @@ CLAIMED = {
          '% > sign > * / > + - > & > comparisons, left-associative) and evaluator: kernel-exhaustive — for ALL 11 111 110 token sequences of length '
          '<= 7 over {atom + - * / & < % ( )} every sequence Excel reads as a formula is grouped as Excel groups it, or lies in one of three '
          'listed defect classes of the emitter, or is one of the two rejected percent forms; unbounded — for every tree over operands, brackets and '
-         'binary + - * / of any size and depth the emitted text read as a flat token string is the formula\'s token string, and Python\'s grouping of it is exactly the tree of the standard precedence grammar on the formula\'s own tokens (structural induction + simulation of the two readers for every fuel); a blank behaves as the integer 0 under '
+         'binary + - * / of any size and depth the emitted text read as a flat token string is the formula\'s token string, and Python\'s grouping of it is exactly the tree of the standard precedence grammar on the formula\'s own tokens, which in turn is exactly the tree the Excel-side reader of the specification builds (xparse, at the fuel the specification gives it) — Python\'s reading of the emitted text IS Excel\'s reading of the formula, with no bound on size or depth (structural induction + two simulations by induction on fuel); a blank behaves as the integer 0 under '
          '+ - * / and sign against every value, the operators on doubles are the same IEEE operation as Excel\'s for all doubles, a literal with a '
          'fraction or negative exponent is the correctly rounded double of its decimal text for every digit string (after fix 5e1cf08); grids for '
          'integer arithmetic and integer literals; kernel-computed witnesses for every known finding. Correspondence: for every case the emitted '
          'code is parsed with Python\'s ast and compared node by node with the model\'s tree, the value with the model\'s value and with the '
          'Excel-side value: all sequences of length <= 3 (thorough 5), all well-formed formulas of length <= 6 (thorough 7), a bracket-nesting '
          'family, random formulas of depth <= 4 with cells (int, float, text, boolean, blank) from the workbook and from overrides.',
-    note='Partial: grouping is unbounded for the core fragment (atoms, brackets, binary + - * /) only; with unary signs, %, & and comparisons it is the sweep (length 7); that the standard grammar is the Excel-side reader is itself a sweep (length 7); '
+    note='Partial: grouping is unbounded for the core fragment (atoms, brackets, binary + - * /) only; with unary signs, %, & and comparisons it is the sweep (length 7), because the emitter deviates from Excel there (see the findings); values are proved per operator, not composed over whole trees; '
          'the Excel side is silent on number->text of fractions, numeric-text spellings other than plain digits, integers beyond 2^53 and '
          'mixed-kind comparisons (C10 decides comparisons). Ten known findings (unary sign scope, comparison/& left operand, percent forms, ...). '
          'One genuine defect fixed (5e1cf08 literal rebuild).',
